@@ -243,6 +243,17 @@ pub fn run_adapter(old: &[u32], new: &[u32], script: &[DiffOp], stack: &str, out
             let mut d = Replace::new(Rec::new(-1));
             feed(&mut d, script)
         }
+        // the same adapters over a sink that is handed over by reference
+        "replace_ref" => {
+            let mut sink = Rec::new(-1);
+            let mut d = Replace::new(&mut sink);
+            feed(&mut d, script)
+        }
+        "compact_replace_ref" => {
+            let mut sink = Rec::new(-1);
+            let mut d = Compact::new(Replace::new(&mut sink), &o[..], &n[..]);
+            feed(&mut d, script)
+        }
         _ => {
             let mut d = Compact::new(Replace::new(Rec::new(-1)), &o[..], &n[..]);
             feed(&mut d, script)
@@ -335,16 +346,24 @@ fn scripted_cases(a: &Args, rng: &mut Rng) -> Vec<(Vec<u32>, Vec<u32>, Vec<DiffO
 pub fn drive_c10(a: &Args, out: &mut Out) {
     let mut rng = Rng::new(a.num("seed", 1));
     let per = if a.thorough() { 6 } else { 3 };
-    for (x, y, script) in scripted_cases(a, &mut rng) {
+    for (i, (x, y, script)) in scripted_cases(a, &mut rng).into_iter().enumerate() {
         for st in ASTACKS {
             run_adapter(&x, &y, &script, st, out);
         }
+        if i % 3 == 0 {
+            run_adapter(&x, &y, &script, "replace_ref", out);
+            run_adapter(&x, &y, &script, "compact_replace_ref", out);
+        }
     }
-    for (x, y) in script_pairs(a, &mut rng) {
+    for (i, (x, y)) in script_pairs(a, &mut rng).into_iter().enumerate() {
         for _ in 0..per {
             let script = random_script(&mut rng, &x, &y);
             for st in ASTACKS {
                 run_adapter(&x, &y, &script, st, out);
+            }
+            if i % 3 == 0 {
+                run_adapter(&x, &y, &script, "replace_ref", out);
+                run_adapter(&x, &y, &script, "compact_replace_ref", out);
             }
         }
     }
